@@ -82,7 +82,13 @@ func devMain(args []string) {
 			jobs = append(jobs, &job{ob: ob, path: obFile(*out, r.Name+"__"+ob.Name)})
 		}
 	}
+	fmt.Printf("vcgen done at %.1fs (%d obligations)\n", time.Since(t0).Seconds(), len(jobs))
+	cacheDir = "/verif/out/cache"
+	if os.Getenv("GOVC_NOCACHE") != "" {
+		cacheDir = ""
+	}
 	solveAll(jobs, *timeout, false, 16)
+	fmt.Printf("solving done at %.1fs\n", time.Since(t0).Seconds())
 	byOb := map[*Obligation]*job{}
 	for _, j := range jobs {
 		byOb[j.ob] = j
